@@ -30,6 +30,7 @@ import (
 	"strconv"
 	"strings"
 	"sync"
+	"sync/atomic"
 	"syscall"
 	"testing"
 	"time"
@@ -84,7 +85,8 @@ type c20Ret struct {
 	done     <-chan struct{}
 }
 
-const c20Timeout = 4 * time.Second
+// generous: only a goroutine that never reaches its next hook waits this long (the machine may be heavily loaded)
+const c20Timeout = 60 * time.Second
 
 type c20World struct {
 	t        *testing.T
@@ -106,6 +108,7 @@ type c20World struct {
 	waitSigs  chan os.Signal
 	waitReady chan bool
 	waitRes   chan reloadReadyWaitResult
+	waitGid   atomic.Uint64
 	regions   *c20Regions
 	r         *VRand
 	st        *VStats
@@ -438,10 +441,14 @@ func (w *c20World) doWaitStart(outcome string) {
 		timeout = 60 * time.Millisecond
 	}
 	sigs, ready, res := w.waitSigs, w.waitReady, w.waitRes
+	started := make(chan struct{})
 	go func() {
+		w.waitGid.Store(c20GID())
+		close(started)
 		r, _ := waitReloadReadyOrSignal(w.log, sigs, ready, timeout)
 		res <- r
 	}()
+	<-started
 }
 
 func (w *c20World) doWait(outcome string) {
@@ -484,6 +491,39 @@ func (w *c20World) swallow(k string) {
 	case w.waitSigs <- sig:
 	case <-time.After(c20Timeout):
 		w.fail("wait did not consume the reload signal")
+		return
+	}
+	// The wait goroutine now handles the signal.  Fixed code (926f7bd) writes a busy report through
+	// the setRunSignalProgress hook (a gate).  A following SIGHUP (which the loop ignores) is taken
+	// only once the loop is back in its select, so "SIGHUP consumed" = the handling is over,
+	// whether or not it wrote anything; no timeout is involved in telling the two apart.
+	hup := make(chan struct{})
+	sigs := w.waitSigs
+	go func() {
+		sigs <- syscall.SIGHUP
+		close(hup)
+	}()
+	tm := time.NewTimer(c20Timeout)
+	defer tm.Stop()
+	for {
+		select {
+		case p := <-w.parkCh:
+			if p.gid != w.waitGid.Load() {
+				w.fail("unexpected goroutine at hook " + p.kind + " while the ready wait handles a signal")
+			}
+			close(p.resume)
+			select {
+			case <-w.afterCh:
+			case <-time.After(c20Timeout):
+				w.fail("timeout inside hook")
+				return
+			}
+		case <-hup:
+			return
+		case <-tm.C:
+			w.fail("ready wait did not return to its select")
+			return
+		}
 	}
 }
 
@@ -675,7 +715,7 @@ func (w *c20World) enabled() (internal []string, external []string) {
 		}
 	} else {
 		internal = append(internal, "m")
-		if w.M.park == nil && w.M.pendingSig == "" && len(w.M.calls) > 0 && w.M.calls[0].name == "wait" {
+		if w.M.park == nil && w.M.pendingSig == "" && len(w.M.calls) > 0 && w.M.calls[0].name == "wait" && w.M.waitOut != "timeout" {
 			external = append(external, "swallow r", "swallow s")
 		}
 	}
@@ -919,7 +959,14 @@ func (s *c20Seq) quiet() {
 	}
 }
 
+var c20Desyncs int
+
 func c20RunSeq(t *testing.T, out *VStream, dir string, regions *c20Regions, r *VRand, st *VStats, body func(s *c20Seq)) int {
+	if c20Desyncs >= 2 {
+		// the real goroutines do not follow the model's sections any more; two replays are enough
+		st.Inc("sequences_skipped_after_desync")
+		return 1000
+	}
 	w := c20NewWorld(t, dir, regions, r, st)
 	s := &c20Seq{w: w, out: out}
 	out.Emit("reset", w.state())
@@ -940,6 +987,7 @@ func c20RunSeq(t *testing.T, out *VStream, dir string, regions *c20Regions, r *V
 	}()
 	if w.desync != "" {
 		st.Inc("DESYNC")
+		c20Desyncs++
 	}
 	st.Inc("sequences")
 	out.ops.Flush()
